@@ -38,6 +38,8 @@ def strip_carets(cmd: bytes) -> bytes:
             i += 1
             if cmd[i] == ord("\r"):
                 i += 2  # skip \r\n
+                if i >= len(cmd):
+                    break  # The line continuation is the last thing in the command
         # Add the character (or next character if ^)
         out.append(cmd[i])
         i += 1
